@@ -40,7 +40,9 @@ CONSTANTS
     AsyncHandlers,  \* the async_handlers option (background work joined)
     MaxSid,         \* budget: session ids ever allocated
     MaxAck,         \* budget: server-initiated ack ids per client
-    Alphabet        \* sequence of action records (generated, see harness)
+    Alphabet,       \* sequence of action records (generated, see harness)
+    Dev             \* known deviations of the code from the intended design that
+                    \* are modelled (labels of /verif/known_findings.json); {} = the design
 
 VARIABLES st, gh
 vars == <<st, gh>>
@@ -134,7 +136,17 @@ LeaveAll(rooms, ns, rs, sid) ==
     ELSE LET r == CHOOSE r \in rs : TRUE
          IN  LeaveAll(LeaveRooms(rooms, ns, r, sid), ns, rs \ {r}, sid)
 
-BasicDisconnect(s, sid, ns) ==
+(* Intended design: the user session of (client, namespace) is destroyed    *)
+(* when that connection ends.  Known finding D6: the code keeps it on the  *)
+(* engine.io socket (keyed by namespace) until the transport goes away.    *)
+DropSession(s, sid, ns) ==
+    LET t == TOf(s, sid, ns)
+    IN  IF "D6" \in Dev \/ t = "none" \/ ~Has(s.sess, t) THEN s
+        ELSE LET S2 == Del(s.sess[t], ns)
+             IN  [s EXCEPT !.sess = IF Empty(S2) THEN Del(@, t) ELSE Put(@, t, S2)]
+
+BasicDisconnect(s0, sid, ns) ==
+    LET s == DropSession(s0, sid, ns) IN
     IF ~Has(s.rooms, ns) THEN s
     ELSE LET mine == {r \in DOMAIN s.rooms[ns] : Has(s.rooms[ns][r], sid)}
              s1 == SyncOrder(s, LeaveAll(s.rooms, ns, mine, sid))
@@ -201,16 +213,23 @@ DiscHandler(m, ns, sid, reason) ==
     ELSE LET m1 == AddCall(m, HCall(ns, "disconnect", sid, <<reason>>))
          IN  IF ns \in m.s.raiseDisc THEN Raise(m1, "Boom") ELSE m1
 
+(* Intended design: manager.disconnect() completes the termination even    *)
+(* when the application's disconnect handler raised, and the remaining     *)
+(* namespaces of a lost transport are still processed.  Known finding D3:  *)
+(* in the code the raise skips everything that follows.                    *)
 FinishDisconnect(m0, m, sid, ns) ==
-    IF m.exc = "" THEN [m EXCEPT !.s = BasicDisconnect(m.s, sid, ns)] ELSE m
+    IF m.exc = "" \/ "D3" \notin Dev
+    THEN [m EXCEPT !.s = BasicDisconnect(m.s, sid, ns)] ELSE m
 
 DiscOne(m, t, ns, reason) ==
-    IF m.exc # "" THEN m
+    IF m.exc # "" /\ "D3" \in Dev THEN m
     ELSE LET sid == SidFromT(m.s, t, ns)
+             mm  == [m EXCEPT !.exc = ""]
          IN  IF ~IsConnected(m.s, sid, ns) THEN m
-             ELSE LET m1 == [m EXCEPT !.s = PreDisconnect(m.s, sid, ns)]
+             ELSE LET m1 == [mm EXCEPT !.s = PreDisconnect(mm.s, sid, ns)]
                       m2 == DiscHandler(m1, ns, sid, reason)
-                  IN  FinishDisconnect(m1, m2, sid, ns)
+                      m3 == FinishDisconnect(m1, m2, sid, ns)
+                  IN  [m3 EXCEPT !.exc = IF m.exc # "" THEN m.exc ELSE m3.exc]
 
 ----------------------------------------------------------------------------
 (* server.py _handle_connect (515-559)                                     *)
@@ -392,7 +411,8 @@ DiscLoop(m, t, order, reason) ==
 
 EioLost(m, t, reason) ==
     LET m1 == DiscLoop(m, t, m.s.nsOrder, reason)
-        m2 == IF m1.exc = "" THEN [m1 EXCEPT !.s.environ = @ \ {t}] ELSE m1
+        m2 == IF m1.exc = "" \/ "D3" \notin Dev
+              THEN [m1 EXCEPT !.s.environ = @ \ {t}, !.s.binbuf = Del(@, t)] ELSE m1
     IN  [m2 EXCEPT !.s.eio[t] = "closed", !.s.sess = Del(@, t)]
 
 ----------------------------------------------------------------------------
@@ -437,6 +457,7 @@ Do(s, a) ==
 (* action's tokens to denote real ids.                                     *)
 Enabled(s, a) ==
     /\ s.nextSid > a.need
+    /\ a.live => Has(AllMembers(s, a.ns), a.sid)     \* only for a client that is there
     /\ CASE a.act = "EioOpen" -> s.eio[a.t] = "none" /\ \A u \in Transports : a.after = u => s.eio[u] # "none"
          [] a.act \in {"EioLost"} -> s.eio[a.t] = "open"
          [] a.act = "RxConnect" -> s.eio[a.t] = "open" /\ s.nextSid <= MaxSid /\ ~Has(s.binbuf, a.t)
@@ -451,27 +472,39 @@ InitGh ==
     [ n      |-> 1,      \* session ids handed out so far + 1
       conn   |-> {},     \* [sid, ns, t] : accepted and not yet ended
       member |-> {},     \* <<ns, room, sid>> : entered and not since left / closed
-      ended  |-> {},     \* sids whose connection has ended
-      cruns  |-> <<>>,   \* connect handler runs per sid
-      druns  |-> <<>>,   \* disconnect handler runs per sid
-      want   |-> <<>> ]  \* want[<<sid, ns>>] = declared session contents
+      ended  |-> {},     \* sids whose connection has ended (or was refused)
+      acc    |-> {},     \* sids accepted on a namespace that has handlers
+      owned  |-> <<>>,   \* owned[t] = sids ever allocated on transport t
+      druns  |-> <<>>,   \* disconnect handler runs per sid (observed)
+      issued |-> {},     \* [sid, id, tag] : server-initiated acks outstanding
+      want   |-> <<>>,   \* want[<<sid, ns>>] = declared session contents
+      stale  |-> <<>>,   \* stale[<<t, ns>>] = session left behind by an ended connection (D6)
+      dev    |-> {} ]    \* labels of known deviations taken on this behaviour
 
 GConnOf(g, sid, ns) == {c \in g.conn : c.sid = sid /\ c.ns = ns}
 GEnd(g, cs) ==          \* the connections cs end
     [g EXCEPT !.conn = @ \ cs,
               !.member = {x \in @ : ~\E c \in cs : c.sid = x[3] /\ c.ns = x[1]},
               !.ended = @ \cup {c.sid : c \in cs},
+              !.issued = {x \in @ : ~\E c \in cs : c.sid = x.sid},
               !.want = [k \in DOMAIN @ \ {<<c.sid, c.ns>> : c \in cs} |-> @[k]]]
 
-GhostNext(s, g, a) ==
+CountDisc(g, hc) ==     \* observation: disconnect handler invocations
+    LET sids == {hc[i].sid : i \in {k \in 1..Len(hc) : hc[k].ev = "disconnect"}}
+    IN  [g EXCEPT !.druns = [x \in DOMAIN @ \cup sids |->
+            Get(@, x, 0) + Cardinality({k \in 1..Len(hc) : hc[k].ev = "disconnect" /\ hc[k].sid = x})]]
+
+GhostStep(s, g, a, o) ==
     CASE a.act = "RxConnect" ->
             IF Served(a.ns) /\ ~\E c \in g.conn : c.t = a.t /\ c.ns = a.ns
             THEN LET sid == SidName(g.n)
                      b   == IF a.ns \in NsH THEN AuthBehaviour(a.auth) ELSE "ok"
-                     g1  == [g EXCEPT !.n = @ + 1]
+                     g1  == [g EXCEPT !.n = @ + 1,
+                                      !.owned = Put(@, a.t, Get(@, a.t, {}) \cup {sid})]
                  IN  IF b \in {"ok", "raise"}
                      THEN [g1 EXCEPT !.conn = @ \cup {[sid |-> sid, ns |-> a.ns, t |-> a.t]},
-                                     !.member = @ \cup {<<a.ns, sid, sid>>}]
+                                     !.member = @ \cup {<<a.ns, sid, sid>>},
+                                     !.acc = IF a.ns \in NsH THEN @ \cup {sid} ELSE @]
                      ELSE [g1 EXCEPT !.ended = @ \cup {sid}]
             ELSE g
       [] a.act = "RxDisconnect" -> GEnd(g, {c \in g.conn : c.t = a.t /\ c.ns = a.ns})
@@ -483,7 +516,42 @@ GhostNext(s, g, a) ==
       [] a.act = "CloseRoom"    -> [g EXCEPT !.member = {x \in @ : ~(x[1] = a.ns /\ x[2] = a.room)}]
       [] a.act \in {"SaveSession", "SessionBlock"} ->
             IF GConnOf(g, a.sid, a.ns) # {} THEN [g EXCEPT !.want = Put(@, <<a.sid, a.ns>>, a.val)] ELSE g
+      [] a.act = "Emit" /\ a.cb # "" ->      \* observation: ids the server put on the wire
+            [g EXCEPT !.issued = @ \cup
+                {[sid |-> c.sid, id |-> o.pk[c.t][1].id, tag |-> a.cb] :
+                    c \in {c \in g.conn : c.ns = a.ns /\ Has(o.pk, c.t)}}]
+      [] a.act = "RxAck" ->
+            [g EXCEPT !.issued = {x \in @ : ~(x.id = a.id /\ \E c \in g.conn :
+                                              c.t = a.t /\ c.ns = a.ns /\ c.sid = x.sid)}]
+      [] a.act = "RxFrame" /\ a.kind = "att" /\ Has(s.binbuf, a.t) ->
+            \* a binary ACK completes: same rule, with the buffered header's namespace and id
+            LET p == s.binbuf[a.t]
+            IN  IF p.ty = "BINARY_ACK" /\ Len(p.atts) + 1 = p.owed
+                THEN [g EXCEPT !.issued = {x \in @ : ~(x.id = p.id /\ \E c \in g.conn :
+                                                  c.t = a.t /\ c.ns = p.ns /\ c.sid = x.sid)}]
+                ELSE g
       [] OTHER -> g
+
+(* A disconnect handler that raises aborts the termination that called it  *)
+(* (known finding D3, see known_findings.json)                             *)
+(* D6 bookkeeping: which (transport, namespace) slots hold a session that  *)
+(* no live connection owns                                                 *)
+Stale(s2, g2) ==
+    LET slots == UNION {{<<t, ns>> : ns \in DOMAIN s2.sess[t]} : t \in DOMAIN s2.sess}
+        dead  == {x \in slots : ~\E c \in g2.conn : c.t = x[1] /\ c.ns = x[2]}
+        fresh == {x \in slots \ dead : \E c \in g2.conn :
+                     c.t = x[1] /\ c.ns = x[2] /\ ~Has(g2.want, <<c.sid, c.ns>>)
+                     /\ s2.sess[x[1]][x[2]] # "empty"}
+    IN  [x \in dead \cup fresh |-> s2.sess[x[1]][x[2]]]
+
+GhostNext(s, g, a) ==
+    IF g.dev # {} THEN g ELSE    \* after a known deviation the history is no longer tracked
+    LET o  == Do(s, a)
+        g1 == CountDisc(GhostStep(s, g, a, o), o.hc)
+        g2 == [g1 EXCEPT !.stale = Stale(o.s, g1)]
+    IN  IF "D3" \in Dev /\ o.exc = "Boom" /\ \E i \in 1..Len(o.hc) : o.hc[i].ev = "disconnect"
+        THEN [g2 EXCEPT !.dev = @ \cup {"D3"}]
+        ELSE g2
 
 ----------------------------------------------------------------------------
 Init == st = InitSt /\ gh = InitGh
@@ -535,4 +603,156 @@ C03_RoomsListing ==
 C03_NoGhostsOfTheDeparted ==     \* a departed client is in no room
     \A sid \in gh.ended : \A ns \in DOMAIN st.rooms : \A r \in DOMAIN st.rooms[ns] :
         ~Has(st.rooms[ns][r], sid)
+
+----------------------------------------------------------------------------
+(* C04 - connection lifecycle                                              *)
+NoRoomHas(s, sid) ==
+    \A ns \in DOMAIN s.rooms : \A r \in DOMAIN s.rooms[ns] : ~Has(s.rooms[ns][r], sid)
+
+C04_ConnectOutcome ==
+    \A a \in Acts(st) : a.act = "RxConnect" =>
+        LET o    == Do(st, a)
+            dupG == \E c \in gh.conn : c.t = a.t /\ c.ns = a.ns
+            sid  == SidName(gh.n)                       \* fresh: never handed out before
+            P    == Get(o.pk, a.t, <<>>)
+            b    == IF a.ns \in NsH THEN AuthBehaviour(a.auth) ELSE "ok"
+            seen == IF a.auth = "absent" THEN "None" ELSE a.auth
+        IN  /\ DOMAIN o.pk \subseteq {a.t}              \* nobody else hears about it
+            /\ IF ~Served(a.ns) \/ dupG
+               THEN /\ o.hc = <<>>                      \* refused without running a handler
+                    /\ P = <<Pkt("CONNECT_ERROR", a.ns, -1, <<"Unable to connect">>)>>
+                    /\ o.s.rooms = st.rooms
+               ELSE /\ IF a.ns \in NsH
+                       THEN o.hc = <<HCall(a.ns, "connect", sid, <<"env:" \o a.t, seen>>)>>
+                       ELSE o.hc = <<>>
+                    /\ CASE b = "ok" ->
+                              /\ P = <<Pkt("CONNECT", a.ns, -1, <<"sid", sid>>)>>
+                              /\ IsConnected(o.s, sid, a.ns)
+                         [] b = "raise" -> TRUE         \* outside the statement; modelled as observed
+                         [] OTHER ->
+                              /\ P = IF AlwaysConnect
+                                     THEN <<Pkt("CONNECT", a.ns, -1, <<"sid", sid>>),
+                                            Pkt("DISCONNECT", a.ns, -1, FailReason(b))>>
+                                     ELSE <<Pkt("CONNECT_ERROR", a.ns, -1, FailReason(b))>>
+                              /\ NoRoomHas(o.s, sid)    \* retains no membership anywhere
+                              /\ o.s.pending = st.pending
+
+ExpectedReason(a) ==
+    CASE a.act = "EioLost" -> a.reason
+      [] a.act = "RxDisconnect" -> "client disconnect"
+      [] OTHER -> "server disconnect"
+
+C04_DisconnectHandler ==        \* which handler runs, for whom, with which reason
+    \A a \in Acts(st) : a.act \in {"EioLost", "RxDisconnect", "Disconnect"} =>
+        LET o  == Do(st, a)
+            cs == CASE a.act = "EioLost" -> {c \in gh.conn : c.t = a.t}
+                    [] a.act = "RxDisconnect" -> {c \in gh.conn : c.t = a.t /\ c.ns = a.ns}
+                    [] OTHER -> GConnOf(gh, a.sid, a.ns)
+        IN  gh.dev = {} /\ o.exc = "" =>
+            /\ {o.hc[i] : i \in 1..Len(o.hc)} =
+                 {HCall(c.ns, "disconnect", c.sid, <<ExpectedReason(a)>>) : c \in {c \in cs : c.ns \in NsH}}
+            /\ Len(o.hc) = Cardinality({c \in cs : c.ns \in NsH})
+            /\ \A c \in cs : ~IsConnected(o.s, c.sid, c.ns) /\ NoRoomHas(o.s, c.sid)
+            \* the transport's other namespaces are unaffected
+            /\ \A c \in gh.conn \ cs : IsConnected(o.s, c.sid, c.ns) /\ TOf(o.s, c.sid, c.ns) = c.t
+            /\ (a.act = "Disconnect" /\ cs # {} =>
+                    o.pk = (CHOOSE c \in cs : TRUE).t :> <<Pkt("DISCONNECT", a.ns, -1, <<>>)>>)
+            /\ (a.act # "Disconnect" \/ cs = {} => o.pk = <<>>)
+
+C04_DisconnectOnce ==
+    gh.dev = {} =>
+        /\ \A sid \in DOMAIN gh.druns : gh.druns[sid] <= 1
+        /\ \A sid \in gh.acc : Get(gh.druns, sid, 0) = IF sid \in gh.ended THEN 1 ELSE 0
+
+----------------------------------------------------------------------------
+(* C05 - incoming events                                                   *)
+C05_EventDispatch ==
+    \A a \in Acts(st) : a.act = "RxEvent" =>
+        LET o  == Do(st, a)
+            cs == {c \in gh.conn : c.t = a.t /\ c.ns = a.ns}
+            r  == EvResult(a.ev)
+        IN  gh.dev = {} =>
+            IF cs = {} THEN o.hc = <<>> /\ o.pk = <<>> /\ o.s = st
+            ELSE LET c           == CHOOSE c \in cs : TRUE
+                     invoked     == a.ns \in NsH /\ r.k # "unh"
+                     responsible == a.ns \in NsH /\ (r.k # "unh" \/ HKind = "class")
+                 IN  /\ o.hc = IF invoked THEN <<HCall(a.ns, a.ev, c.sid, a.args)>> ELSE <<>>
+                     /\ IF a.id >= 0 /\ responsible /\ r.k # "raise"
+                        THEN o.pk = a.t :> <<Pkt(IF HasBinary(Pack(r)) THEN "BINARY_ACK" ELSE "ACK",
+                                                 a.ns, a.id, Pack(r))>>
+                        ELSE o.pk = <<>>
+                     /\ o.s = st
+
+C05_BinaryEventDispatch ==     \* the attachment that completes a binary event
+    \A a \in Acts(st) : (a.act = "RxFrame" /\ a.kind = "att" /\ Has(st.binbuf, a.t)) =>
+        LET o == Do(st, a)
+            p == st.binbuf[a.t]
+            cs == {c \in gh.conn : c.t = a.t /\ c.ns = p.ns}
+        IN  (gh.dev = {} /\ p.ty = "BINARY_EVENT" /\ Len(p.atts) + 1 = p.owed /\ p.ns \in NsH
+                /\ EvResult(p.ev).k \notin {"unh", "raise"} /\ cs # {}) =>
+            /\ o.hc = <<HCall(p.ns, p.ev, (CHOOSE c \in cs : TRUE).sid, Append(p.atts, a.b))>>
+            /\ ~Has(o.s.binbuf, a.t)
+            /\ (p.id >= 0 => DOMAIN o.pk = {a.t} /\ Len(o.pk[a.t]) = 1 /\ o.pk[a.t][1].id = p.id)
+
+----------------------------------------------------------------------------
+(* C06 - server-initiated acknowledgements                                 *)
+C06_IssuedIdUnique ==
+    \A a \in Acts(st) : (a.act = "Emit" /\ a.cb # "") =>
+        LET o == Do(st, a)
+        IN  \A c \in {c \in gh.conn : c.ns = a.ns /\ Has(o.pk, c.t)} :
+                /\ o.pk[c.t][1].id >= 1
+                /\ ~\E x \in gh.issued : x.sid = c.sid /\ x.id = o.pk[c.t][1].id
+
+C06_AckOutcome ==
+    \A a \in Acts(st) : a.act = "RxAck" =>
+        LET o    == Do(st, a)
+            mine == {x \in gh.issued : x.id = a.id /\ \E c \in gh.conn :
+                                       c.t = a.t /\ c.ns = a.ns /\ c.sid = x.sid}
+        IN  gh.dev = {} =>
+            /\ o.res = <<"ok">> /\ o.hc = <<>> /\ o.pk = <<>>
+            /\ IF mine # {}
+               THEN o.cbs = <<[tag |-> (CHOOSE x \in mine : TRUE).tag, args |-> a.args]>>
+               ELSE o.cbs = <<>> /\ o.s = st       \* ignored without error and without side effect
+
+C06_IssuedMatchesCore ==        \* the declared outstanding set is what the manager holds
+    gh.dev = {} =>
+        {<<x.sid, ToString(x.id), x.tag>> : x \in gh.issued}
+          = UNION {{<<sid, k, st.cb[sid].out[k]>> : k \in DOMAIN st.cb[sid].out} : sid \in DOMAIN st.cb}
+
+----------------------------------------------------------------------------
+(* C16 - user sessions                                                     *)
+C16_SessionIsolation ==
+    \A a \in Acts(st) : a.act \in {"GetSession", "SessionBlock"} =>
+        LET o == Do(st, a)
+        IN  gh.dev = {} =>
+            IF GConnOf(gh, a.sid, a.ns) # {}
+            THEN LET c == CHOOSE c \in GConnOf(gh, a.sid, a.ns) : TRUE
+                 IN  \/ o.res = <<"ok", Get(gh.want, <<a.sid, a.ns>>, "empty")>>
+                     \* known finding D6, exactly: the leftover of an earlier connection
+                     \/ /\ "D6" \in Dev /\ ~Has(gh.want, <<a.sid, a.ns>>)
+                        /\ Has(gh.stale, <<c.t, a.ns>>)
+                        /\ o.res = <<"ok", gh.stale[<<c.t, a.ns>>]>>
+            ELSE o.res[1] = "exc"
+
+(* witness for the known finding: TRUE as long as nobody could observe D6  *)
+D6_NotObservable == gh.stale = <<>>
+
+----------------------------------------------------------------------------
+(* C11 - no residual state                                                 *)
+Mentions(s, t, sids) ==
+    \/ t \in s.environ \/ Has(s.binbuf, t) \/ Has(s.sess, t)
+    \/ DOMAIN s.cb \cap sids # {}
+    \/ \E ns \in DOMAIN s.pending : Range(s.pending[ns]) \cap sids # {}
+    \/ \E ns \in DOMAIN s.rooms : \E r \in DOMAIN s.rooms[ns] :
+          \E x \in DOMAIN s.rooms[ns][r] : x \in sids \/ s.rooms[ns][r][x] = t
+
+C11_NoResidue ==
+    gh.dev = {} =>
+        /\ st.residue = <<>>
+        /\ \A t \in Transports : st.eio[t] = "closed" => ~Mentions(st, t, Get(gh.owned, t, {}))
+
+C11_FreshWhenEmpty ==
+    (gh.dev = {} /\ \A t \in Transports : st.eio[t] # "open") =>
+        /\ st.rooms = <<>> /\ st.nsOrder = <<>> /\ st.pending = <<>> /\ st.cb = <<>>
+        /\ st.binbuf = <<>> /\ st.sess = <<>> /\ st.environ = {}
 ====
